@@ -81,6 +81,8 @@ struct Ctx {
     const char *subject_name = nullptr;
     // A second, independent logger alive next to the one under test (cfg "side_logger"): a no-alloc logger on a stream of its own,
     // used through AWS_LOGUF by the same threads. Each logger's lines must reach its own sink only, whole, once and in order.
+    int writer_logs = 0;        // background mode: the writer logs this many lines of its own through the logger
+    bool writer_nested = false;
     bool have_side = false, side_cleaned = false;
     struct aws_logger side;
     FILE *side_stream = nullptr;
@@ -199,11 +201,29 @@ void check_line(Ctx &c, const std::string &line, int writer_tid) {
     }
 }
 
+void do_log(Ctx &c, int thr, const sim::Op &op);
+static const int WRITER_IDX = 6; // logical "thread" of lines logged by the writer itself (on the background thread)
+
 // ---- recording writer (configs 1, 2)
 int rec_write(struct aws_log_writer *w, const struct aws_string *output) {
     (void)w;
     Ctx &c = *g;
     c.writes++;
+    // A writer is application code and may log through the same logger (e.g. "log file rotated"). With the background channel it runs on
+    // the background thread, outside the channel's lock: the nested line is accepted like any other and must be written before clean-up
+    // returns - also when it is logged while the final batch is being written.
+    if (c.writer_logs > 0 && c.mode == MODE_EXT_BG && !c.writer_nested && aws_logger_get() == &c.logger && output->len && (output->len * 2654435761u >> 9) % 3 == 0) {
+        c.writer_nested = true;
+        c.writer_logs--;
+        char repr[32];
+        snprintf(repr, sizeof repr, "%016lx", (unsigned long)aws_thread_current_thread_id());
+        c.tid_repr[WRITER_IDX] = repr;
+        c.thr_of_tid[sim::self()] = WRITER_IDX;
+        sim::probe("writer_logged_through_the_same_logger_on_the_background_thread");
+        sim::Op op; op.kind = OP_LOG; op.thr = WRITER_IDX; op.a = 0 /* FATAL */; op.b = 1; op.c = 12; op.d = (int64_t)c.writes;
+        do_log(c, WRITER_IDX, op);
+        c.writer_nested = false;
+    }
     std::string line((const char *)output->bytes, output->len);
     sim::note(sim::PK_HARNESS, nullptr, 500);
     check_line(c, line, sim::self());
@@ -545,6 +565,7 @@ RunInfo run(const sim::Plan &plan) {
     sim::begin(plan);
     sim::set_observer(observer, &c);
     c.alloc_logs = c.mode == MODE_EXT_FG && plan.get("alloc_logs", 0) != 0;
+    c.writer_logs = c.mode == MODE_EXT_BG ? (int)plan.get("writer_logs", 0) : 0;
     if (c.alloc_logs) simalloc::set_release_hook(logging_release_hook, &c);
     int cf = (int)plan.get("create_fail", 0);
     bool init_failed = false;
@@ -644,11 +665,14 @@ RunInfo run(const sim::Plan &plan) {
     int queued = 0;
     for (auto &call : c.calls) if (call.lines == 0 && call.level <= call.model_level) queued++;
     if (queued && (c.mode == MODE_EXT_BG || c.mode == MODE_STANDARD)) sim::probe("cleanup_with_lines_still_queued");
-    aws_logger_set(nullptr);
+    // with a writer that logs, the logger stays installed while the channel drains (lines the writer logs during the final batch are accepted)
+    const bool keep_logger = plan.get("writer_logs", 0) > 0 && c.mode == MODE_EXT_BG;
+    if (!keep_logger) aws_logger_set(nullptr);
     int bg_tid = (c.mode == MODE_EXT_BG || c.mode == MODE_STANDARD) ? 1 : -1;
     sim::note(sim::PK_HARNESS, nullptr, 800);
     if (c.mode == MODE_EXT_BG || c.mode == MODE_EXT_FG) {
         aws_log_channel_clean_up(&c.channel);
+        if (keep_logger) aws_logger_set(nullptr);
         if (bg_tid > 0 && !sim::thread_done(bg_tid)) sim::violation("c14:thread-alive", "channel clean-up returned but the background thread has not exited");
         final_checks(c);
         c.cleanup_returned = true;
@@ -699,6 +723,7 @@ void gen(uint64_t seed, int tier, sim::Plan &p) {
     p.cfg["nloggers"] = nl;
     p.cfg["init_level"] = r.pick(std::vector<int64_t>{6, 6, 6, 4, 3, 1, 0});
     if (mode == 2 && r.chance(0.3)) p.cfg["alloc_logs"] = 1;
+    if (mode == 1 && r.chance(0.3)) p.cfg["writer_logs"] = r.range(1, 4);
     if (mode <= 2) p.cfg["date_format"] = r.pick(std::vector<int64_t>{1, 1, 0, 2}); // formatter option: ISO 8601, RFC 822, ISO 8601 basic
     p.cfg["alloc_realloc"] = r.chance(0.8);
     p.cfg["alloc_calloc"] = r.chance(0.8);
